@@ -47,7 +47,9 @@ func (c43Engine) WarmupRuns() int  { return 2 }
 
 var (
 	c43Users  = []string{"admin", "u1", "u2"}
-	c43DSNs   = []string{"dr", "du", "dr2"} // restricted, unrestricted, a second restricted one with the same table names
+	// restricted, unrestricted, a second restricted one with the same table names, and a restricted one whose NAME
+	// extends the unrestricted one's with a dot (DSN names may contain dots; "du.x" + "." + table must not be read as DSN "du")
+	c43DSNs = []string{"dr", "du", "dr2", "du.x"}
 	c43Tables = []string{"t1", "t2"}
 	c43Perms  = []string{"read", "write", "update", "delete", "admin"}
 	c43Hash   = map[string]string{}
@@ -81,6 +83,8 @@ func (c43Engine) Generate(seed uint64, tier string) *simrun.Case {
 			d = 1
 		} else if r.Chance(1, 3) {
 			d = 2
+		} else if r.Chance(1, 5) {
+			d = 3
 		}
 		t := int64(r.Intn(2))
 		switch x := r.Intn(100); {
@@ -238,7 +242,7 @@ func (c43Engine) Execute(t *testing.T, c *simrun.Case, keepLog bool) *simrun.Out
 					break
 				}
 				u := c43Users[int(op.Arg(0))%3]
-				d := c43DSNs[int(op.Arg(1))%3]
+				d := c43DSNs[int(op.Arg(1))%len(c43DSNs)]
 				tb := c43Tables[int(op.Arg(2))%2]
 				k := key{u, d, tb}
 				base := "/dsns/" + d + "/tables/" + tb
